@@ -6,9 +6,9 @@ Import ListNotations.
 
 (* Without --delete no destination entry lacking a source counterpart is removed or altered --
    whatever else happens in the run (errors included) *)
-Theorem C06_no_delete_no_loss : forall refuse ds c now U src dst q x,
+Theorem C06_no_delete_no_loss : forall refuse ds c now U keep src dst q x,
   c_delete c = false -> ~ In q (paths_of src) -> dst q = Some x ->
-  r_fs (run refuse ds c now U src dst) q = Some x.
+  r_fs (run refuse ds c now U keep src dst) q = Some x.
 Proof. exact no_delete_no_loss. Qed.
 Print Assumptions C06_no_delete_no_loss.
 
@@ -25,24 +25,33 @@ Proof.
 Qed.
 Print Assumptions C06_plan_exact.
 
-(* a path whose counterpart is in the list handed to the planner is never planned for deletion -- so the
-   "never deleted under a filter" clause holds iff that list is the UNFILTERED scan; the engine hands it the
-   filtered one (known finding C06-KF2, reproduced on the binary) *)
-Theorem C06_listed_never_deleted : forall src listing e,
-  In e src -> ~ In (se_path e) (map t_path (plan_deletions src listing)).
-Proof. intros src listing e He Hc. apply C06_plan_exact in Hc. destruct Hc as [_ Hn]. apply Hn. unfold paths_of. apply in_map. exact He. Qed.
-Print Assumptions C06_listed_never_deleted.
+(* under ANY filter or size bound a destination path whose counterpart exists in the source -- selected [src] or kept out of
+   the run [keep] -- is never planned for deletion: the engine hands the planner the whole scan (`fix: plan --delete against
+   the whole source scan`; on the pinned commit it handed it the filtered list, recorded as fixed) *)
+Theorem C06_counterpart_never_planned : forall keep src listing e,
+  In e (keep ++ src) -> ~ In (se_path e) (map t_path (plan_deletions (keep ++ src) listing)).
+Proof. intros keep src listing e He Hc. apply C06_plan_exact in Hc. destruct Hc as [_ Hn]. apply Hn. unfold paths_of. apply in_map. exact He. Qed.
+Print Assumptions C06_counterpart_never_planned.
+
+(* with --delete, a destination path without a counterpart anywhere in the source scan is gone after a successful run *)
+Theorem C06_stale_removed : forall refuse ds c now U keep src dst,
+  src_wf src -> c_dry_run c = false -> c_delete c = true -> dst [] = None ->
+  let r := run refuse ds c now U keep src dst in
+  r_refused r = false -> r_errors r = [] ->
+  forall q, In q U -> ~ In q (paths_of (keep ++ src)) -> r_fs r q = None.
+Proof. exact stale_removed. Qed.
+Print Assumptions C06_stale_removed.
 
 (* selected source entries survive the deletions of a successful run (the mirror's "superset" half is C01) *)
-Theorem C06_deletions_spare_selected : forall refuse ds c now U src dst,
+Theorem C06_deletions_spare_selected : forall refuse ds c now U keep src dst,
   src_wf src -> c_dry_run c = false -> dst [] = None ->
   (forall e, In e src -> se_is_dir e = true -> forall cc s t, dst (se_path e) <> Some (File cc s t)) ->
   (forall e, In e src -> se_is_dir e = false -> dst (se_path e) <> Some Dir) ->
-  let r := run refuse ds c now U src dst in
+  let r := run refuse ds c now U keep src dst in
   r_refused r = false -> r_errors r = [] -> forall e, In e src -> r_fs r (se_path e) <> None.
 Proof.
-  intros refuse ds c now U src dst Hwf Hdry Hroot Hnf Hnd2 r Href Herr e He.
-  destruct (run_post refuse ds c now U src dst Hwf Hdry Hroot Hnf Hnd2 Href Herr e He) as (x & Hx & _). fold r in Hx. congruence.
+  intros refuse ds c now U keep src dst Hwf Hdry Hroot Hnf Hnd2 r Href Herr e He.
+  destruct (run_post refuse ds c now U keep src dst Hwf Hdry Hroot Hnf Hnd2 Href Herr e He) as (x & Hx & _). fold r in Hx. congruence.
 Qed.
 Print Assumptions C06_deletions_spare_selected.
 
@@ -52,7 +61,7 @@ Theorem C06_mirror : forall refuse ds c now U src dst,
   src_wf src -> c_dry_run c = false -> c_delete c = true -> dst [] = None ->
   (forall e, In e src -> se_is_dir e = true -> forall cc s t, dst (se_path e) <> Some (File cc s t)) ->
   (forall e, In e src -> se_is_dir e = false -> dst (se_path e) <> Some Dir) ->
-  let r := run refuse ds c now U src dst in
+  let r := run refuse ds c now U [] src dst in
   r_refused r = false -> r_errors r = [] ->
   forall q, In q U -> (r_fs r q <> None <-> In q (paths_of src)).
 Proof. exact mirror. Qed.
@@ -70,6 +79,17 @@ Print Assumptions C06_deletions_never_fail.
 Example C06_stale_dir_no_error :
   let c := mk_cfg true true 50 false false false false 100 100 in
   let dst : fs := fun p => if peqb p [7%N] then Some Dir else if peqb p [7%N; 8%N] then Some (File 1 1 1%Z) else None in
-  let r := run (fun _ _ _ => false) (fun _ => (0%N, 0%Z)) c 1%Z [[7%N]; [7%N; 8%N]] [] dst in
+  let r := run (fun _ _ _ => false) (fun _ => (0%N, 0%Z)) c 1%Z [[7%N]; [7%N; 8%N]] [] [] dst in
   r_errors r = [] /\ r_fs r [7%N] = None /\ r_fs r [7%N; 8%N] = None /\ r_events r = [(ADelete, [7%N]); (ADelete, [7%N; 8%N])].
+Proof. vm_compute. repeat split. Qed.
+
+(* non-vacuity of the filter clause: keep.log is kept out of the run by --exclude '*.log'; the destination's keep.log survives
+   --delete, the stale entries go *)
+Example C06_excluded_counterpart_survives :
+  let c := mk_cfg true true 50 false false false false 100 100 in
+  let keep := [mk_sentry [2%N] false 3 5%Z 8 false] in
+  let src := [mk_sentry [1%N] false 3 5%Z 7 false] in
+  let dst : fs := fun p => if peqb p [2%N] then Some (File 9 4 1%Z) else if peqb p [3%N] then Some (File 1 1 1%Z) else None in
+  let r := run (fun _ _ _ => false) (fun _ => (0%N, 0%Z)) c 1%Z [[1%N]; [2%N]; [3%N]] keep src dst in
+  r_errors r = [] /\ r_fs r [2%N] = Some (File 9 4 1%Z) /\ r_fs r [3%N] = None /\ r_fs r [1%N] = Some (File 7 3 5%Z).
 Proof. vm_compute. repeat split. Qed.
